@@ -85,7 +85,8 @@ pub struct HistProp {
 pub fn run_hist(p: &HistProp, tier: &str, rep: &mut Report) {
     let oracles = (p.oracles)();
     let refs: Vec<&dyn Oracle> = oracles.iter().map(|b| b.as_ref()).collect();
-    let deadline = Some(Instant::now() + Duration::from_secs((p.budget_s)(tier)));
+    let budget = std::env::var("VERIF_BUDGET_S").ok().and_then(|x| x.parse().ok()).unwrap_or((p.budget_s)(tier));
+    let deadline = Some(Instant::now() + Duration::from_secs(budget));
     let mut names = Vec::new();
     for (name, mk) in (p.scenarios)(tier) {
         let sc = mk();
